@@ -83,8 +83,17 @@ def run_schedule(scn: Dict[str, Any], chooser) -> Dict[str, Any]:
                         sub.close()          # closed from inside the loop body; the loop is left to end by itself
             return f
 
+        def admin(ops):
+            # connect() / close() are documented no-ops of the in-memory transport: whenever they are called
+            # (a worker that joins late, a reconnect after close()) nothing published may be affected
+            def f():
+                for op in ops:
+                    getattr(tr, op)()
+            return f
+
         fns = [publisher(f"p{i}", plan) for i, plan in enumerate(scn["pubs"])] + \
-              [subscriber(f"s{i}", pat) for i, pat in enumerate(scn["subs"])]
+              [subscriber(f"s{i}", pat) for i, pat in enumerate(scn["subs"])] + \
+              ([admin(scn["admin"])] if scn.get("admin") else [])
         s = Scheduler([TARGET], chooser)
         sched_box[0] = s
         s.run(fns)
@@ -123,7 +132,7 @@ def property_check(h: Dict[str, Any], scn) -> Optional[str]:
 
 
 def scenario_key(scn) -> str:
-    return f"pubs={scn['pubs']} subs={scn['subs']} pre={scn['pre']}"
+    return f"pubs={scn['pubs']} subs={scn['subs']} pre={scn['pre']}" + (f" admin={scn['admin']}" if scn.get("admin") else "")
 
 
 def explore_chunk(jobs: List[Tuple[Dict[str, Any], Any]]):
@@ -192,7 +201,47 @@ SCENARIOS = [
     {"pubs": [["a", "b"]], "subs": ["*"], "pre": []},                      # wildcard subscriber scanning while channels are being created
     {"pubs": [["c.x", "c.q.x"], ["c.x"]], "subs": ["c.*.x"], "pre": []},   # a pattern whose prefix and suffix overlap on the channel "c.x"
     {"pubs": [["a", "a", "a"]], "subs": ["a"], "pre": ["a"], "close_after": 1},   # the consumer closes its subscription inside its loop
+    {"pubs": [["a"], ["a"]], "subs": [], "pre": [], "admin": ["connect", "close", "connect"]},      # creation race while a late worker connects / reconnects
+    {"pubs": [["a", "b"], ["b", "a"]], "subs": ["*"], "pre": [], "admin": ["close", "connect"]},
+    {"pubs": [["a", "a", "a", "a", "a"]], "subs": ["a"], "pre": [], "close_after": 2},             # a backlog of several messages, the consumer stops early
 ]
+
+
+def scale_check() -> Optional[str]:
+    """SCALE: backlogs far beyond anything a schedule enumeration reaches -- one channel holding 100 000 undelivered
+    messages, and 400 channels of 3 -- are drained completely and in publication order (plain threads, no scheduler)."""
+    import semantiva.execution.transport.in_memory as im
+
+    tr = im.InMemorySemantivaTransport()
+    n = 100_000
+    half = n // 2
+
+    def pub(lo, hi):
+        for k in range(lo, hi):
+            tr.publish("bulk", data=k, context=None)
+    ts = [threading.Thread(target=pub, args=(0, half)), threading.Thread(target=pub, args=(half, n))]
+    for t in ts:
+        t.start()
+    for t in ts:
+        t.join()
+    got = [m.data for m in tr.subscribe("bulk")]
+    if sorted(got) != list(range(n)):
+        missing = sorted(set(range(n)) - set(got))
+        return f"one channel with a backlog of {n} messages: {len(got)} delivered, {len(missing)} lost (first lost: {missing[:3]}), {len(got) - len(set(got))} duplicated"
+    lo = [k for k in got if k < half]
+    hi = [k for k in got if k >= half]
+    if lo != sorted(lo) or hi != sorted(hi):
+        return "one channel with a backlog of 100000 messages: a publisher's messages were not delivered in publication order"
+    for c in range(400):
+        for k in range(3):
+            tr.publish(f"jobs.{c}.cfg", data=(c, k), context=None)
+    seen: Dict[int, List[int]] = {}
+    for m in tr.subscribe("jobs.*.cfg"):
+        seen.setdefault(m.data[0], []).append(m.data[1])
+    if len(seen) != 400 or any(v != [0, 1, 2] for v in seen.values()):
+        return f"400 channels of 3 messages: {len(seen)} channels delivered, {sum(1 for v in seen.values() if v != [0, 1, 2])} of them incomplete or out of order"
+    return None
+
 
 
 def check(tier: str) -> int:
@@ -252,6 +301,10 @@ def check(tier: str) -> int:
         if h["py"]:
             run.violation(f"history:{scenario_key(h['scn'])}", f"schedule {h['sched']}: {h['py']}",
                           {"scenario": h["scn"], "sched": list(h["sched"])})
+    bad_scale = scale_check()
+    run.evaluations += 1
+    if bad_scale:
+        run.violation("scale:backlog", bad_scale, {"scale": True})
     run.traces_validated = len(histories) - rejected
     run.extra["schedules"] = {"prefix_exhaustive_L": L, "total": len(histories), "rejected_by_spec": rejected,
                               "max_steps": max(h["steps"] for h in histories)}
